@@ -1,6 +1,6 @@
 (* Lifting the per-operation simulation to whole histories. *)
 From Coq Require Import List Arith NArith PArith Lia Bool Sorting.Sorted Permutation ZifyBool.
-From DesVerif Require Import Common.Fuel Common.Codec CQueue.Model CQueue.Spec CQueue.Scan CQueue.Term CQueue.Fetch CQueue.AddInv CQueue.ListX CQueue.Refine.
+From DesVerif Require Import Common.Fuel Common.Codec CQueue.Model CQueue.Spec CQueue.Scan CQueue.Term CQueue.Fetch CQueue.AddInv CQueue.ListX CQueue.Refine CQueue.InvBits.
 Import ListNotations.
 Open Scope N_scope.
 
@@ -17,7 +17,7 @@ Lemma step_sim s a o :
   let '(a', x') := sp_step a o in
   x = x' /\ Rst s' a'.
 Proof.
-  intros [HR Hh]. destruct o as [t p|k| | | |]; cbn [step sp_step].
+  intros [HR Hh]. destruct o as [t p|k| | | | |]; cbn [step sp_step].
   - (* add *)
     destruct (t <? tcur (sq s)) eqn:E.
     + unfold add, sp_add. rewrite <- (R_tcur _ _ _ HR), E. split; [reflexivity|]. split; assumption.
@@ -40,6 +40,7 @@ Proof.
     rewrite (R_zero _ _ _ HR), !app_length, (Permutation_length (R_perm _ _ _ HR)). reflexivity.
   - split; [|split; assumption]. f_equal. apply (R_tcur _ _ _ HR).
   - split; [|split; assumption]. apply (R_peek _ _ _ HR).
+  - split; [|split; assumption]. f_equal. apply (R_inv_bits _ _ _ HR).
 Qed.
 
 Lemma run_sim ops : forall s a,
@@ -81,13 +82,14 @@ Proof. intros Hn Ht. apply run_sim. apply Rst_init; assumption. Qed.
 (* C01.2: the scan never runs out of fuel, i.e. the Rust loop terminates *)
 Lemma sp_step_no_fuel a o : snd (sp_step a o) <> OOutOfFuel.
 Proof.
-  destruct o as [t p|k| | | |]; cbn [sp_step].
+  destruct o as [t p|k| | | | |]; cbn [sp_step].
   - unfold sp_add. destruct (t <? s_tcur (ss a)); [cbn; discriminate|]. destruct (t =? s_tcur (ss a)); cbn; discriminate.
   - destruct (pick_handle (shandles a) k) as [[? ?]|]; cbn; discriminate.
   - unfold sp_fetch. destruct (s_zero (ss a)); [destruct (s_rest (ss a))|]; cbn; discriminate.
   - cbn; discriminate.
   - cbn; discriminate.
   - cbn. unfold sp_peek. destruct (s_zero (ss a)); [destruct (s_rest (ss a))|]; discriminate.
+  - cbn; discriminate.
 Qed.
 
 Lemma sp_run_no_fuel ops : forall a, ~ In OOutOfFuel (snd (sp_run_from a ops)).
